@@ -38,7 +38,7 @@ type c06Case struct {
 	OnlyK    int      `json:"only_k"`         // replay: enumerate a single abort point (-1 = all)
 }
 
-var c06Scenarios = []string{"new-bug", "edit", "edit-many", "new-identity", "mutate-identity", "identity-several-versions", "pull-dag", "pull-dag", "cache-pull", "cache-new-edit"}
+var c06Scenarios = []string{"new-bug", "edit", "edit-many", "pull-dag-stale-clocks", "new-identity", "mutate-identity", "identity-several-versions", "pull-dag", "pull-dag", "cache-pull", "cache-new-edit"}
 
 func genC06(t *rapid.T) c06Case {
 	c := c06Case{Seed: rapid.Uint64().Draw(t, "seed"), OnlyK: -1}
@@ -260,7 +260,7 @@ func c06Scenario(c c06Case, repo repository.ClockedRepo, authorIds []string, sha
 			}
 			return i.Commit(repo)
 		})
-	case "pull-dag":
+	case "pull-dag", "pull-dag-stale-clocks":
 		steps = append(steps, func() error {
 			if _, err := identity.Fetch(repo, "origin"); err != nil {
 				return err
@@ -400,6 +400,17 @@ func runC06(tb report.TB, rep *report.Reporter, c c06Case) {
 	must(err)
 	must(identity.SetUserIdentity(r0.Repo, me))
 	_ = r0.Repo.Close()
+	staleStart := c.Scenario == "pull-dag-stale-clocks"
+	if staleStart {
+		// the local references were not written by this installation of git-bug (stock git fetched them, a backup of
+		// the repository was restored without its clock files' latest values): the clock files exist and are behind
+		cdir := filepath.Join(r0.Path, ".git", "git-bug", "clocks")
+		if entries, err := os.ReadDir(cdir); err == nil {
+			for _, e := range entries {
+				must(os.WriteFile(filepath.Join(cdir, e.Name()), []byte("1"), 0o644))
+			}
+		}
+	}
 
 	snap := filepath.Join(w.Dir, "snapshot")
 	work := r0.Path
@@ -434,6 +445,11 @@ func runC06(tb report.TB, rep *report.Reporter, c c06Case) {
 	}
 	if err := c06Scenario(c, counter, w.AuthorIds, shared, 0, checkpoint); err != nil {
 		_ = repo.Close()
+		if staleStart {
+			// a pull of legal data that cannot complete even when nothing interrupts it
+			rep.Fail(tb, "C06/action-cannot-complete-without-any-interruption/"+c.Scenario+"/"+Normalize(err.Error()), err.Error(), c)
+			return
+		}
 		tb.Fatalf("harness: scenario %s fails without any fault: %v", c.Scenario, err)
 	}
 	_ = repo.Close()
@@ -577,9 +593,12 @@ func runC06(tb report.TB, rep *report.Reporter, c c06Case) {
 				continue
 			}
 		}
-		// clocks usable and above everything stored
+		// clocks usable and above everything stored (not when the scenario starts from clock files that are behind)
 		clockBad := false
 		for _, name := range []string{"bugs-edit", "bugs-create"} {
+			if staleStart {
+				break
+			}
 			v, err := re.Increment(name)
 			if err != nil {
 				clockBad = fail("clock-unusable-after-crash/"+Normalize(err.Error()), name+": "+err.Error())
